@@ -8,6 +8,30 @@ ENGINE = "harness/engine (vengine)"
 TB_COMMON = "Trusted base: the harness itself (reference model named in the text), rustc 1.95, parity-scale-codec 3.7.5 as linked, rayon; verdict is 'no violation within the stated bound'."
 
 CHECKS = {
+    "C01": dict(cat="model_checking", design="§4 C01, §3.2, §3.3", engine=ENGINE,
+                technique="explicit-state exploration (stateright BFS) of registration histories on the real Registry + exhaustive enumeration of all small type graphs x root sequences, builder histories and (registry, filter) pairs; invariant: dense and closed",
+                text="Every reachable state of: (a) all register_type / register_types / into_portable / map_into_portable histories over the 61-member static universe U1 to depth 3 (quick) / 4 (thorough) and over a 19-op core alphabet to depth 5 / 7; (b) every type graph of the U2 plans (all graphs up to 3 nodes, 4 thorough, incl. self and mutual recursion and parameter-only reachability) x every root sequence with repetition; (c) every builder history to depth 5/6; (d) every (registry, filter) pair of the C10 enumeration; and decode(encode(r)) of all of them, is checked for id == index, resolve agreement, Registry::types() keys in order, and closure of every mentioned id (fields, variant fields, params, sequence/array/compact element, tuple members, bit store/order).",
+                note="refs() is the independent visitor of every id position."),
+    "C02": dict(cat="model_checking", design="§4 C02", engine=ENGINE,
+                technique="explicit-state exploration of registration histories (U1, stateright) and exhaustive type-graph enumeration (U2) with a co-inductive image check against MetaType::type_info()",
+                text="For every history of the C01 exploration (U1 to depth 3/4, core to 5/7; every U2 graph x root sequence), every id returned by a registration is compared, slot by slot and to a fixed point through cycles, with the type's own type_info(): path, parameter names and Some/None, kind, field names, type names, docs, variant names / indices / docs, array length, tuple arity, primitive tag; outputs of into_portable / map_into_portable are compared the same way.",
+                note="The derive- and built-in-grammar corpora (generated programs) extend this check in the progs engine when built; termination of registration is observed (a crash of the engine is investigated by the driver)."),
+    "C05": dict(cat="model_checking", design="§4 C05", engine=ENGINE,
+                technique="explicit-state exploration of registration histories with repetition over all alias families (U1, stateright) and all small type graphs (U2); oracle: hand-assigned identity labels, closure size, evaluation counters, no-op re-registration",
+                text="Over the same histories: (i) two registered universe members get the same id iff their hand-assigned model identity is the same (every Box/Rc/Arc/&/&mut/Vec/VecDeque/slice/String/str/PhantomData alias family incl. wrappers of wrappers, and same-constructor-different-argument families); (ii) entry count equals the number of distinct identities reachable (from the U2 specification for graphs, from type_info() graphs for U1); (iii) registering anything already present, as root or sub-type, returns the old id and leaves Debug(registry) byte-identical; (iv) thread-local counters in hand-written impls and in every U2 node show each definition evaluated at most once per registry.",
+                note="Model identity labels of U1 are assigned by hand from the documented rule; the U1 closure for (ii) is keyed by the library's TypeId (C16 checks that notion separately)."),
+    "C10": dict(cat="model_checking", design="§4 C10", engine=ENGINE,
+                technique="exhaustive enumeration of all well-formed registries up to n entries over a definition-shape x parameter-list alphabet x all 2^n filters, against an independent reachability / bijection / substitution oracle",
+                text="All registries with n<=2 entries complete over 9 definition shapes x 5 parameter-list shapes with every reference in 0..n; n=3 over all definition shapes, n=3 parameter-focused (quick); plus n=3 with parameters and n=4 over six kinds (thorough); each with all 2^n filters. Oracle: map keys == independently computed reachable set, values a bijection onto 0..k, result dense and closed, every retained entry == original with ids substituted through the map and id == map[old].",
+                note="A state is a registry, a transition one retain call on a fresh clone."),
+    "C11": dict(cat="model_checking", design="§4 C11", engine=ENGINE,
+                technique="explicit-state exploration of registration histories (stateright) checking prefix stability on every transition, replay determinism on every history, and all permutations of every root set up to canonical renumbering",
+                text="Every transition of the U1 and U2 explorations: the snapshot of Registry::types() before an operation is an entry-for-entry prefix of the snapshot after it; every history is replayed and must give byte-identical encodings; for every U2 graph every permutation of every root subset (size 2..4) must give the same registry after rooted canonical renumbering (no particular numbering is demanded).",
+                note="Canonical renumbering = DFS from the roots in a fixed order following refs() positionally."),
+    "C12": dict(cat="model_checking", design="§4 C12", engine=ENGINE,
+                technique="explicit-state exploration (stateright BFS) of all operation sequences on the real PortableRegistryBuilder and Interner against a duplicate-free Vec model, observations evaluated in every state",
+                text="All register_type sequences to depth 7 (quick) / 8 (thorough) over a 9-value alphabet (two values depend on the current state through next_type_id; four differ from another value in exactly one slot: docs, path, params), and all intern_or_get sequences to depth 11 / 13 over 4 values on Interner<u32> and Interner<&str>; in every state next_type_id, get(i) for i in {0,1,2,len-1,len,len+1,u32::MAX}, finish, get(&v), resolve of every symbol up to len+2 (via a foreign interner) and elements are compared with the Vec model.",
+                note="State key = Debug rendering of the real object; 1-thread and N-thread explorations must agree on state counts."),
     "C06": dict(cat="exploration", design="§4 C06, §3.4", engine=ENGINE,
                 technique="bounded exhaustive enumeration of the PortableRegistry value space (regspace) against an independent V14 encoder/decoder (refscale)",
                 text="Every registry of the enumerated value space (component-complete products over compact-size-class boundary domains, k-deviation mixtures, ill-formed multi-entry registries, registries produced by the real Registry) is encoded by the library and by an independent transcription of the V14 layout; bytes must be equal and each decoder must read the other's bytes back to the same registry.",
